@@ -161,6 +161,7 @@ def run(ctx):
     same_name_contexts(ctx)
     nil_with_attributes(ctx)
     typed_members_and_repeating_groups(ctx)
+    plain_href_not_nil_and_envelope_attributes(ctx)
     outlined_presentations(ctx)
     times_and_mixed_use(ctx)
     arrays_of_arrays_and_two_ports(ctx)
@@ -397,6 +398,45 @@ def nil_with_attributes(ctx):
         if not K.same_value(got, exp):
             ctx.fail("a nilled element is not decoded to None / its attributes are not kept under underscore names "
                      "(whatever prefix the schema-instance namespace has)", meta, repr(got), repr(exp))
+
+
+def plain_href_not_nil_and_envelope_attributes(ctx):
+    """(a) an attribute the schema declares under the name href is an attribute like any other (it is no reference
+    when nothing carries that id); (b) xsi:nil="0" / "false" on a leaf says the leaf is NOT nil: it decodes to its
+    value; (c) attributes of the SOAP envelope vocabulary on payload elements (encodingStyle - SOAP 1.1 and 1.2) are
+    not data: a leaf that carries one is still the leaf's value."""
+    schema = ('<xsd:element name="f"><xsd:complexType><xsd:sequence/></xsd:complexType></xsd:element>'
+              '<xsd:complexType name="Link"><xsd:sequence><xsd:element name="t" type="xsd:string" minOccurs="0"/></xsd:sequence>'
+              '<xsd:attribute name="href" type="xsd:anyURI"/><xsd:attribute name="rel" type="xsd:string"/></xsd:complexType>'
+              '<xsd:element name="fResponse"><xsd:complexType><xsd:sequence><xsd:element name="link" type="x:Link"/>'
+              '<xsd:element name="n" type="xsd:int" nillable="true"/><xsd:element name="m" type="xsd:int" nillable="true"/>'
+              '<xsd:element name="s" type="xsd:string" nillable="true"/><xsd:element name="k" type="xsd:int"/>'
+              '</xsd:sequence></xsd:complexType></xsd:element>')
+    client = wsdlkit.client(wsdlkit.wsdl_doc(schema, "f", "fResponse"))
+    for envns in (xmlread.ENV11, xmlread.ENV12):
+        for href in ("http://example.org/a", "#top", "#id0"):
+            for notnil in ("0", "false"):
+                data = ('<e:Envelope xmlns:e="%s" xmlns:xsi="%s"><e:Body><fResponse xmlns="%s"><link href="%s" rel="next"><t>x</t>'
+                        '</link><n xsi:nil="%s">5</n><m xsi:nil="true"/><s xsi:nil="%s">text</s>'
+                        '<k e:encodingStyle="http://schemas.xmlsoap.org/soap/encoding/">7</k></fResponse></e:Body></e:Envelope>'
+                        % (envns, xmlread.XSI, wsdlkit.TNS, href, notnil, notnil)).encode()
+                meta = {"stream": "href-notnil-envelope-attributes", "envelope": envns, "href": href, "nil": notnil,
+                        "reply": data.decode()}
+                ctx.case(common.canon(meta), True)
+                try:
+                    r = client.service.f(__inject={"reply": data})
+                    got = {"link": K.normal(getattr(r, "link", "absent")), "n": K.normal(getattr(r, "n", "absent")),
+                           "m": K.normal(getattr(r, "m", "absent")), "s": K.normal(getattr(r, "s", "absent")),
+                           "k": K.normal(getattr(r, "k", "absent"))}
+                except Exception as e:
+                    ctx.fail("decoding a schema-valid reply raised", meta, "%s: %s" % (type(e).__name__, e), "a value")
+                    continue
+                exp = {"link": {"__class__": "Link", "_href": href, "_rel": "next", "t": "x"}, "n": 5, "m": None, "s": "text",
+                       "k": 7}
+                if not K.same_value(got, exp):
+                    ctx.fail("a reply decodes to something else than the value the document encodes (an attribute named "
+                             "href / a leaf that says it is not nil / an envelope attribute on a payload leaf)", meta,
+                             repr(got), repr(exp))
 
 
 def typed_members_and_repeating_groups(ctx):
